@@ -7,6 +7,7 @@ Unit description: specs/kani/<unit>.kspec
 
   //@unit NAME            //@serves C07 C09         //@dir common         (directory of the crate, relative to the repo root; `.` = tantivy)
   //@kani-flags -Z stubbing ...                      (extra flags for this unit)
+  //@cbmc-args --unwindset LOOP:N,...                (passed to CBMC after `--cbmc-args`, last on the command line; e.g. per-loop unwinding bounds)
   //@harness NAME level=complete|contract|bounded(...) [timeout=SECONDS] [expect=pass|fail] [covers=fn1,fn2] [finding=F2] [obligation="text"]
   //@append FILE                                     text up to //@endappend is appended to FILE of the scratch copy
   //@contract FILE :: SEG :: fn NAME                 text up to //@endcontract is inserted on the lines above that fn (after its doc comments/attrs)
@@ -41,6 +42,7 @@ def parse_kspec(path):
             elif d == "serves": u["serves"] = arg.split()
             elif d == "dir": u["dir"] = arg.strip()
             elif d == "kani-flags": u["flags"] += arg.split()
+            elif d == "cbmc-args": u.setdefault("cbmc_args", []).extend(arg.split())   # passed after `--cbmc-args` (must be last on the command line)
             elif d == "note": u["notes"].append(arg.strip())
             elif d == "trusted": u["trusted"].append(arg.strip())
             elif d == "harness":
@@ -270,7 +272,10 @@ def run_unit_group(units, repo="/repo", jobs=None, keep=False, tier="quick", onl
     cmd = base + ["-j", str(jobs)]
     for h in harnesses:
         cmd += ["--harness", h["name"]]
-    log.append("cmd (cwd=<scratch>/%s): %s" % (d, " ".join(cmd)))
+    cbmc_tail = [a for u in units for a in u.get("cbmc_args", [])]
+    if cbmc_tail:
+        cmd += ["--cbmc-args"] + cbmc_tail
+    log.append("cmd (cwd=<scratch>/%s): %s" % (d, " ".join(cmd)[:2000]))
     def run(cmd, to):
         try:
             p = subprocess.run(cmd, cwd=cwd, env=env, stdout=subprocess.PIPE, stderr=subprocess.STDOUT, text=True, timeout=to)
@@ -290,6 +295,8 @@ def run_unit_group(units, repo="/repo", jobs=None, keep=False, tier="quick", onl
             cmd2 = base + ["-Z", "concrete-playback", "--concrete-playback=print"]
             for h in refuted:
                 cmd2 += ["--harness", h["name"]]
+            if cbmc_tail:
+                cmd2 += ["--cbmc-args"] + cbmc_tail
             out2, _ = run(cmd2, maxto * len(refuted) + 1800)
             p2 = parse_kani_output(out2, [h["name"] for h in refuted])
             out += "\n==== playback re-run ====\n" + out2
